@@ -313,6 +313,15 @@ func (m *Machine) topReturn(st *State, fr *Frame, rets []Value) {
 		}
 	}
 	for i, e := range m.fc.Ensures {
+		if m.onlyProp != "" {
+			tg := e.Tags
+			if len(tg) == 0 {
+				tg = m.fc.Props
+			}
+			if !hasTag(tg, m.onlyProp) {
+				continue
+			}
+		}
 		v, ok := m.evalClause(st, e, bind)
 		if !ok {
 			continue
@@ -324,6 +333,9 @@ func (m *Machine) topReturn(st *State, fr *Frame, rets []Value) {
 		tags := e.Tags
 		if len(tags) == 0 {
 			tags = m.fc.Props
+		}
+		if m.onlyProp != "" && !hasTag(tags, m.onlyProp) {
+			continue
 		}
 		m.noteAntecedent(st, e, "cover.post."+label, bind)
 		m.recordOrOblige(st, fr, "post", label, v.(*Term), tags, e.Raw+"  ["+e.Line+"]")
@@ -832,6 +844,15 @@ func (m *Machine) enterLoopHeader(st *State, fr *Frame, from, header *ssa.BasicB
 			savedBase := st.evBase
 			st.evBase = cut.evBase
 			for i, it := range spec.Iters {
+				if m.onlyProp != "" {
+					tg := it.Tags
+					if len(tg) == 0 {
+						tg = m.safeTagsFor(fr.fn)
+					}
+					if !hasTag(tg, m.onlyProp) {
+						continue
+					}
+				}
 				m.localBindingsAt(st, fr, from, header, paramNames(it), bind)
 				v, ok := m.evalClause(st, it, bind)
 				if !ok {
